@@ -568,6 +568,8 @@ def stepViews (cx : Ctx) (w : World) (ws : List String) : Option StepOut :=
         let base : Option Nat := match fp.headD "" with
           | "vec" | "slice" | "slicemut" => some 0
           | "ref" | "refmut" => if partNat fp 1 < n then some (partNat fp 1) else none
+          -- a window [a, b) of the slice / mutable slice, directly (`win…`) or rebuilt with from_raw_parts(_mut) (`rt…`)
+          | "wins" | "winsm" | "rts" | "rtsm" => if partNat fp 1 ≤ partNat fp 2 ∧ partNat fp 2 ≤ n then some (partNat fp 1) else none
           | _ => none
         match base with
         | none => some { w, i := pan, s := pan }
@@ -763,6 +765,12 @@ def stepIter (cx : Ctx) (w : World) (ws : List String) : Option StepOut :=
     match parseReg r with
     | some r =>
       if kind == "vec" then some { w, i := { status := "ok", ret := "rebuilt" }, s := { status := "ok", ret := "rebuilt" } }
+      else if kind == "vec_cap" then
+        -- from_raw_parts(ptr, len, capacity) with the common capacity of the field arrays: the identity, capacities included;
+        -- not applicable when the field arrays have different capacities (zero-sized fields, at usize::MAX, aside)
+        let cs := ((w.caps.getD r (Cap.St.new cx.kinds 0)).caps.filter (·.1 != 'z')).map (·.2)
+        let na := cs.isEmpty || cs.any (· != cs.headD 0) || cs.headD 0 == 0
+        some { w, i := { status := "ok", ret := if na then "n/a" else "kept" }, s := { status := "ok", ret := if na then "n/a" else "kept" } }
       else some { w, i := { status := "ok", ret := fmtCols (colsI (getI r)) }, s := { status := "ok", ret := fmtCols (colsS (getS r)) } }
     | none => some (badOp w)
   | "refs" :: r :: what :: args =>
